@@ -41,6 +41,10 @@ type Family struct {
 	// SameAcrossSchedules: every execution of an item (every schedule within the bound) must report the same hops and
 	// the same success/failure as the item's default schedule
 	SameAcrossSchedules bool
+	// Extra: additional scenarios of the property that are not wire items (enumerators over a component); they come after the items
+	ExtraCount  func(tier string) int
+	ExtraRun    func(tier string, idx int, r *core.ScnResult)
+	ExtraReplay func(scn json.RawMessage) (string, bool, bool) // (report, ok, handled)
 
 	mu    sync.Mutex
 	cache map[string][]Item
@@ -60,7 +64,13 @@ func (f *Family) items(tier string) []Item {
 	return it
 }
 
-func (f *Family) Count(tier string) int { return len(f.items(tier)) }
+func (f *Family) Count(tier string) int {
+	n := len(f.items(tier))
+	if f.ExtraCount != nil {
+		n += f.ExtraCount(tier)
+	}
+	return n
+}
 
 func (f *Family) secondEvery() int {
 	if f.SecondEvery > 0 {
@@ -97,6 +107,10 @@ func (f *Family) RunPlain(it *Item) *Result { return f.runItem(it, nil, nil, fal
 
 func (f *Family) Run(tier string, idx int, r *core.ScnResult) {
 	items := f.items(tier)
+	if idx >= len(items) {
+		f.ExtraRun(tier, idx-len(items), r)
+		return
+	}
 	it := &items[idx]
 	bound := 0
 	if f.Bound != nil {
@@ -234,6 +248,11 @@ func (f *Family) Run(tier string, idx int, r *core.ScnResult) {
 }
 
 func (f *Family) Replay(scn json.RawMessage, choices []int) (string, bool) {
+	if f.ExtraReplay != nil {
+		if s, ok, handled := f.ExtraReplay(scn); handled {
+			return s, ok
+		}
+	}
 	var it Item
 	if err := json.Unmarshal(scn, &it); err != nil {
 		return err.Error(), false
